@@ -74,11 +74,11 @@ def leaf_unit(tag: str) -> Unit:
         n += 1
         msgs.append(L.Message("Ar%d" % off, pad(off) + [L.Field("x", 2, L.Array(k, 3)), L.Field("tail", 3, L.Bool())]))
         if not is_enum:        # aliases name only unnamed types
-            a = L.Alias("A%d" % n, k)
+            a = L.Alias("Al%dT" % n, k)
             defs.append(a)
             msgs.append(L.Message("Al%d" % off, pad(off) + [L.Field("x", 2, a), L.Field("tail", 3, L.Bool())]))
             msgs.append(L.Message("ArAl%d" % off, pad(off) + [L.Field("x", 2, L.Array(a, 2)), L.Field("tail", 3, L.Bool())]))
-            aa = L.Alias("AA%d" % n, L.Array(k, 2))
+            aa = L.Alias("Row%d" % n, L.Array(k, 2))
             defs.append(aa)
             msgs.append(L.Message("AlAr%d" % off, pad(off) + [L.Field("x", 2, aa), L.Field("tail", 3, L.Bool())]))
             msgs.append(L.Message("ArAlAr%d" % off, pad(off) + [L.Field("x", 2, L.Array(aa, 2)), L.Field("tail", 3, L.Bool())]))
